@@ -4357,6 +4357,7 @@ static WBXMLError xml_encode_tag(WBXMLEncoder *encoder, WBXMLTreeNode *node)
 
     /* NameSpace handling: Check if Current Node Code Page is different than Parent Node Code Page */
     if ((encoder->lang->nsTable != NULL) &&
+        (node->name->type == WBXML_VALUE_TOKEN) && /* a literal name has no code page (u.token is not valid for it) */
         ((node->parent == NULL) ||
          ((node->parent->type == WBXML_TREE_ELEMENT_NODE) &&
           (node->parent->name->type == WBXML_VALUE_TOKEN) &&
